@@ -138,52 +138,36 @@ theorem cleanup_faults_irrelevant (c c' : Cfg) (r : Result) (h : runForever c = 
     (hbl : SameButCleanup c.blocks c'.blocks) :
     ∃ r', runForever c' = some r' ∧ stops r'.trace = stops r.trace ∧ sabs r'.trace = sabs r.trace ∧
       r'.started = r.started := by
+  exact same_partition_same_stops c c' r h hb (by rw [hc]; exact hb) hoa hos hbl.toStartStop
+
+/-- the "save the persistent state" step of run_forever (before `_stop_sblocks`) does not change
+    which blocks are stopped: making any blocks persistent or not – whatever their state is when
+    the simulation is terminated, initialised or not, entry in the storage or not – keeps the
+    same stop orders admissible and gives the same stop() calls, stop_async begins and started set -/
+theorem save_step_irrelevant (c c' : Cfg) (r : Result) (h : runForever c = some r)
+    (hb : c.cause.before = false) (hc : c'.cause = c.cause) (hoa : c'.oa = c.oa) (hos : c'.os = c.os)
+    (hbl : SameButPersistence c.blocks c'.blocks) :
+    ∃ r', runForever c' = some r' ∧ stops r'.trace = stops r.trace ∧ sabs r'.trace = sabs r.trace ∧
+      r'.started = r.started :=
+  same_partition_same_stops c c' r h hb (by rw [hc]; exact hb) hoa hos hbl.toStartStop
+
+/-- … and it always completes: `finish` goes on to the clean-up whatever `saveStep` computes (the
+    result's trace, task table and timers do not mention the storage) -/
+theorem save_step_total (c : Cfg) (r : Result) (h : runForever c = some r) (hb : c.cause.before = false) :
+    r.storage = saveStep c.blocks (consumePending (plan c)) (storage0 c.blocks) ∧
+    (stops r.trace).Perm r.started := by
   have sp := run_spec c r h hb
-  -- the start loop and the classification do not read the clean-up scripts
-  have hstart : ∀ (i : Nat) (l l' : List Blk),
-      SameButCleanup l l' →
-      startLoop i l' = startLoop i l := by
-    intro i l l' hl
-    induction hl generalizing i with
-    | nil => rfl
-    | @cons b b' l₁ l₂ hbb _ ih =>
-      have : b'.fStart = b.fStart := by rw [hbb]
-      unfold startLoop
-      simp only [this, ih]
-  have hblk : ∀ k, (blk c'.blocks k).asyncStop = (blk c.blocks k).asyncStop := by
-    intro k
-    have : ∀ (l l' : List Blk) (k : Nat),
-        SameButCleanup l l' →
-        (l'.getD k {}).asyncStop = (l.getD k {}).asyncStop := by
-      intro l l' k hl
-      induction hl generalizing k with
-      | nil => rfl
-      | @cons b b' l₁ l₂ hbb _ ih =>
-        cases k with
-        | zero => simp only [List.getD_cons_zero]; rw [hbb]; rfl
-        | succ k => simpa using ih k
-    exact this _ _ k hbl
-  have hst : (plan c').started = (plan c).started := by
-    rw [plan_started, plan_started, hstart 0 _ _ hbl]
-  have hA : setA c'.blocks (plan c').started = setA c.blocks (plan c).started := by
-    simp only [setA, hst, hblk]
-  have hS : setS c'.blocks (plan c').started = setS c.blocks (plan c).started := by
-    simp only [setS, hst, hblk]
-  have hb' : c'.cause.before = false := by rw [hc]; exact hb
-  have hfin : ∃ r', finish c' (plan c') = some r' := by
-    unfold finish
-    simp only [consumePending, Bool.false_and, Bool.false_eq_true, if_false]
-    have : (permOf c'.oa (setA c'.blocks (plan c').started) && permOf c'.os (setS c'.blocks (plan c').started)) = true := by
-      simp only [permOf, Bool.and_eq_true, List.isPerm_iff, hA, hS, hoa, hos]
-      exact ⟨sp.permA, sp.permS⟩
-    simp [this]
-  obtain ⟨r', hr'⟩ := hfin
-  have hrun : runForever c' = some r' := by
-    unfold runForever; simp only [hb', Bool.false_eq_true, if_false]; exact hr'
-  obtain ⟨h1, h2, h3, _⟩ := trace_stops c r h hb
-  obtain ⟨h1', h2', h3', _⟩ := trace_stops c' r' hrun hb'
-  refine ⟨r', hrun, by rw [h1, h1', hoa, hos], by rw [h3, h3', hoa], ?_⟩
-  rw [(run_spec c' r' hrun hb').started, sp.started, hst]
+  obtain ⟨h1, h2⟩ := stop_exactly_started c r h
+  obtain ⟨_, h3, _, _⟩ := trace_stops c r h hb
+  refine ⟨?_, h3 ▸ h1⟩
+  unfold runForever at h
+  simp only [hb, Bool.false_eq_true, if_false] at h
+  unfold finish at h
+  simp only [consumePending, Bool.false_and, Bool.false_eq_true, if_false] at h
+  split at h
+  · simp at h
+  · simp only [Option.some.injEq] at h
+    subst h; rfl
 
 /-- `stop_data_last` (OutputFunc): for a started OutputFunc block with stop_data the calls of its
     output function end with the stop_data call, and that is the only stop_data call – for every
@@ -357,6 +341,23 @@ example : (plan exInner).pendingCancel = true ∧
     ∃ r, runForever exInner = some r ∧
       stops r.trace = [0, 3, 1, 2] ∧ sabs r.trace = [0] ∧ r.tasks = [] ∧ r.error = some .cancelled := by
   refine ⟨by decide +kernel, _, rfl, ?_⟩
+  decide +kernel
+
+/-- example configuration for the save step: the init_regular of block 1 raises, so the persistent
+    blocks 2 (entry in the storage) and 3 (no entry, first run) are started but never initialised;
+    block 0 is persistent and initialised -/
+abbrev exSave : Cfg :=
+  { blocks := [{ persistent := true }, { fInitRegular := true },
+               { persistent := true, restored := true, fRestore := true, selfInit := false, hasInitdef := true },
+               { persistent := true, selfInit := false, hasInitdef := true },
+               { kind := .async, stopDur := 10, stopTimeout := 100 }],
+    cause := { kind := .shutdown, time := 205 }, oa := [4], os := [3, 0, 2, 1] }
+
+/-- non-vacuity of the save step: the stale entry of block 2 is removed, block 3 has none, block
+    0 is saved – and all five started blocks are stopped -/
+example : ∃ r, runForever exSave = some r ∧ r.phase = .initFailed ∧ r.storage = [0] ∧
+    stops r.trace = [4, 3, 0, 2, 1] ∧ r.tasks = [] := by
+  refine ⟨_, rfl, ?_⟩
   decide +kernel
 
 end Edzed.Lifecycle
